@@ -53,6 +53,14 @@ inductive Good : Path → Prop
   | kronChol : Good (.kron .chol)
   | kronSlq : Good (.kron .slq)
   | block (p : Path) (k : Nat) : Good p → 0 < k → Good (.block p k)
+  | cat (p : Path) : Good p → Good (.cat p)
+
+theorem Term.to_eq (t : Term) : t.to = t := by cases t <;> rfl
+
+/-- `CatLinearOperator`'s post-processing changes nothing unless the base call raised. -/
+theorem catPost_eq (x : Term × Term) (h1 : x.1 ≠ .err) (h2 : x.2 ≠ .err) : catPost x = x := by
+  rcases x with ⟨a, b⟩
+  cases a <;> cases b <;> simp_all [catPost, Term.to]
 
 theorem good_shapes (p : Path) (hg : Good p) :
     ∀ (batch : List Nat) (m : Nat) (lg red : Bool), (∀ d ∈ batch, 0 < d) → 0 < m →
@@ -77,6 +85,13 @@ theorem good_shapes (p : Path) (hg : Good p) :
     intro batch m lg red hb hm
     simp only [shapes, redIf_mat batch m red hb hm]
     cases lg <;> cases red <;> simp
+  | cat p _ ih =>
+    intro batch m lg red hb hm
+    obtain ⟨h1, h2, h3, h4, h5⟩ := ih batch m lg red hb hm
+    have hmat : shapes (.cat p) batch (.mat m) lg red = catPost (shapes p batch (.mat m) lg red) := rfl
+    have habs : shapes (.cat p) batch .absent true red = catPost (shapes p batch .absent true red) := rfl
+    rw [hmat, habs, catPost_eq _ (by rw [h1]; simp) h3, catPost_eq _ h4 (by rw [h5]; simp)]
+    exact ⟨h1, h2, h3, h4, h5⟩
   | block p k _ hk ih =>
     intro batch m lg red hb hm
     have hbb := pos_append_single batch k hb hk
